@@ -97,9 +97,23 @@ func (c *chunkReader) Read(p []byte) (int, error) {
 func c13Run(c c13Case) (viol string) {
 	files := make([]*memFile, len(c.Sizes))
 	t0 := time.Date(2001, 2, 3, 4, 5, 6, 789012345, time.UTC)
+	// file times: ordinary ones and instants that nanoseconds-since-1970 in 64 bits cannot hold
+	// (a file system's "no time stamp" value, a far-future time, Go's zero time), rotated over the cases
+	times := []time.Time{
+		t0,
+		time.Date(1969, 12, 31, 23, 59, 58, 500000001, time.UTC),
+		time.Date(1601, 1, 1, 0, 0, 0, 100, time.UTC),
+		time.Date(2300, 2, 3, 4, 5, 6, 7, time.UTC),
+		{},
+	}
+	rot := len(c.Parts) + c.Gzip + c.Buf%7
 	for i, s := range c.Sizes {
 		d := fileData(i, s)
-		files[i] = &memFile{name: c.Names[i], data: d, t: t0.Add(time.Duration(i) * 1234567891), hash: vh.MD5(d), prev: "prev of " + c.Names[i]}
+		t := times[(rot+i)%len(times)]
+		if t.Equal(t0) {
+			t = t0.Add(time.Duration(i) * 1234567891)
+		}
+		files[i] = &memFile{name: c.Names[i], data: d, t: t, hash: vh.MD5(d), prev: "prev of " + c.Names[i]}
 	}
 	opener := func(f sts.File) (sts.Readable, error) {
 		for _, mf := range files {
@@ -443,7 +457,7 @@ func TestC13(t *testing.T) {
 			run(cc)
 		}
 	}
-	rep.Bound = fmt.Sprintf("every payload of 1-3 parts with part lengths from {1,2,7,8192,8193} in four layouts (consecutive middle slices of one file; slices alternating between two files, at the start and reaching the end; slices of one file with holes between them, ascending and descending), read through buffers of 1/3/4096/32768 bytes, plain and gzip levels %v, separators none / '/' / '\\\\', names with spaces, unicode, ':' and the other separator, times with nanoseconds; every 3-part payload transmitted a second time after one part was removed from it or after it was split behind part 1 or 2; every truncation point of one 3-part payload; announced header lengths off by -40..+40", gz)
+	rep.Bound = fmt.Sprintf("every payload of 1-3 parts with part lengths from {1,2,7,8192,8193} in four layouts (consecutive middle slices of one file; slices alternating between two files, at the start and reaching the end; slices of one file with holes between them, ascending and descending), read through buffers of 1/3/4096/32768 bytes, plain and gzip levels %v, separators none / '/' / '\\\\', names with spaces, unicode, ':' and the other separator, times with nanoseconds incl. 1969, 1601, 2300 and the zero time; every 3-part payload transmitted a second time after one part was removed from it or after it was split behind part 1 or 2; every truncation point of one 3-part payload; announced header lengths off by -40..+40", gz)
 }
 
 func c13Class(c c13Case, v string) string {
